@@ -14,8 +14,8 @@
 
    is NOT proved in Coq for the children / orphans / no-raise / kill-cancels clauses; those clauses are checked
    after every step on the real implementation and against this model by the correspondence harness only.
-   The full statement is false of the (faithful) model outside the extra hypotheses below: see the
-   *_refuted theorems, each with its witness history. *)
+   The full statement is false of the (faithful) model outside the hypothesis "updates name a tracked region":
+   see C14_untracked_region_refuted with its witness history (a recorded known finding). *)
 From Coq Require Import NArith List Bool.
 From HV Require Import Obj.SceneGraph Obj.SceneGraphProofs.
 Import ListNotations.
@@ -56,26 +56,26 @@ Print Assumptions C14_clear_cancels.
 
 (* ---- the full statement fails on the faithful model: witnesses (all replayed on the real code) ---- *)
 
-(* finding: KillObject for an untracked local id pops its orphan list; avatar orphans survive the cascade but are
-   no longer held as orphans, so they are never adopted when the parent appears *)
-Theorem C14_avatar_orphan_refuted :
+(* repaired (7f5640d): KillObject for an untracked local id no longer drops avatar orphans from the orphanage:
+   the former witness history now ends with the avatar adopted by the parent when it appears *)
+Example C14_avatar_orphan_adopted :
   exists w o rs p3,
     run init [ETrack 1; EFull false 1 4 4 3 true 1; EKill 1 3; EFull false 1 3 3 0 false 1] = Some w
-    /\ get_obj w 4 = Some o /\ o_parent o = 3 /\ o_region o = 1 /\ get_rs w 1 = Some rs
-    /\ aget 4 (r_local rs) = Some 4 /\ aget 3 (r_local rs) = Some 3
-    /\ get_obj w 3 = Some p3 /\ o_children p3 = [] /\ o_plink o = None.
+    /\ get_obj w 4 = Some o /\ o_parent o = 3 /\ get_rs w 1 = Some rs /\ r_orphans rs = []
+    /\ get_obj w 3 = Some p3 /\ o_children p3 = [(4, 4)] /\ o_plink o = Some 3.
 Proof. vm_compute. do 4 eexists. repeat split. Qed.
-Print Assumptions C14_avatar_orphan_refuted.
 
-(* finding: an update that changes the parent (or local id) of an object sitting in an unknown region raises *)
-Theorem C14_regionless_update_refuted :
-  run init [ETrack 1; EFull false 1 1 1 0 false 1; EFull false 3 2 1 0 false 1] <> None
-  /\ run init [ETrack 1; EFull false 1 1 1 0 false 1; EFull false 3 2 1 0 false 1; EFull false 3 2 1 4 false 1] = None
-  /\ run init [ETrack 1; EFull false 1 1 1 0 false 1; EFull false 3 2 1 0 false 1; EFull false 3 3 1 0 false 1] = None.
-Proof. vm_compute. repeat split. discriminate. Qed.
-Print Assumptions C14_regionless_update_refuted.
+(* repaired (0de120a): a parent / local-id change of an object sitting in an unknown region no longer raises;
+   the object just takes the new values and stays outside every local-id index *)
+Example C14_regionless_update_ok :
+  exists w1 w2 o1 o2,
+    run init [ETrack 1; EFull false 1 1 1 0 false 1; EFull false 3 2 1 0 false 1; EFull false 3 2 1 4 false 1] = Some w1
+    /\ run init [ETrack 1; EFull false 1 1 1 0 false 1; EFull false 3 2 1 0 false 1; EFull false 3 3 1 0 false 1] = Some w2
+    /\ get_obj w1 1 = Some o1 /\ o_parent o1 = 4 /\ get_obj w2 1 = Some o2 /\ o_lid o2 = 3.
+Proof. vm_compute. do 4 eexists. repeat split. Qed.
 
-(* finding: an object announced in a registered region before the region is tracked is never indexed by local id *)
+(* KNOWN finding (deliberate per the code comment): an object announced in a registered region before the region is
+   tracked is never indexed by local id *)
 Theorem C14_untracked_region_refuted :
   exists w, run init [ETrack 1; EFull false 1 1 1 0 false 1; EFull false 2 2 1 0 false 1; ETrack 2] = Some w /\ ~ Idx w.
 Proof.
